@@ -25,13 +25,16 @@ AllFields  == SeqFields \cup FlatFields
 \* the nine stacks whose depths the run loop's growth check adds up
 SizedFields == {"bool", "float", "int", "name", "code", "exec", "bvec", "fvec", "ivec"}
 
+\* default capacities of the INPUT / OUTPUT queues and of the GRAPH stack; the capacities in force are part of the
+\* configuration (a host may install queues of another capacity: in_cap, out_cap, graph_cap)
 InputCap  == 10
 OutputCap == 3
 GraphCap  == 100
 
 DefaultCfg == [max_f |-> FOne, min_f |-> FNeg(FOne), max_i |-> 10, min_i |-> -10,
                push_limit |-> 1000, time_limit |-> 5000, growth_cap |-> 500,
-               new_name_p |-> 981668463, max_rand_points |-> 25, max_prog_points |-> 100]
+               new_name_p |-> 981668463, max_rand_points |-> 25, max_prog_points |-> 100,
+               in_cap |-> InputCap, out_cap |-> OutputCap, graph_cap |-> GraphCap]
 
 EmptyState == [exec |-> <<>>, code |-> <<>>, int |-> <<>>, float |-> <<>>, bool |-> <<>>,
                name |-> <<>>, bvec |-> <<>>, ivec |-> <<>>, fvec |-> <<>>, index |-> <<>>,
